@@ -108,7 +108,7 @@ def check(P, R):
 
     check_raises(P, R)
     check_apply(P, R)
-    check_shared_writes(P, R, 'C09.d')
+    check_shared_writes(P, R, 'C09.d', skip_config_time=True)
 
 
 def _lookup_like(v):
@@ -264,6 +264,8 @@ def _thread_independent_value(f, n):
     at = f.cfg.node_of_stmt(n)[0]
     for x in f.rd.closure_nodes(n.value, at):
         if isinstance(x, ast.Name) and isinstance(x.ctx, ast.Load):
+            if x.id in f.params and x.id != 'self':
+                return False
             if x.id == 'self' or f.rd.is_local(x.id):
                 continue
             return False
@@ -291,22 +293,28 @@ def request_derived(f, exprs, at):
     return False
 
 
-def check_shared_writes(P, R, rid, strict=False, same_for_all_threads_ok=False):
+CONFIG_TIME_FUNCS = {'add_hook', 'remove_hook', 'on', 'on_route', 'remove_route_hook', 'route', 'add_route', 'remove_route', 'error', 'add', '_add',
+                     'remove', 'setup', 'make_filter', 'parse_rule', 'iter_parse', '_iter_parse', '_parse_param', 'hook_installer'}
+
+
+def check_shared_writes(P, R, rid, strict=False, same_for_all_threads_ok=False, skip_config_time=False):
     """strict=True (C08 / C10): every write to a location that outlives the request must be in the frozen table.
     strict=False (C09): only writes that carry request-derived data into such a location and are not preceded, on every
     path, by a reset of that location (scratch use) - i.e. the ones that can carry data into a later request or grow."""
-    ws = E.shared_writes(P, analysed_funcs(P))
+    ws = E.shared_writes(P, analysed_funcs(P)) + E.extra_shared_writes(P, analysed_funcs(P))
     seen = set()
     for w in ws:
         f = w['func']
         key = (f.fq, w['target'], w['kind'])
         seen.add(key)
         ok = key in SHARED_WRITE_TABLE
+        if not ok and skip_config_time and f.name in CONFIG_TIME_FUNCS:
+            continue   # registration / configuration API: not executed while serving a request
         detail = ''
         if not ok and not strict:
             n = w['node']
             g = f.cfg
-            at = g.node_of_stmt(n)[0]
+            at = (g.node_of_stmt(n) or [g.entry])[0]
             vals = []
             if isinstance(n, (ast.Assign, ast.AugAssign)):
                 vals.append(n.value)
@@ -316,7 +324,7 @@ def check_shared_writes(P, R, rid, strict=False, same_for_all_threads_ok=False):
             elif isinstance(n, ast.Call):
                 vals.extend(n.args)
                 vals.extend(k.value for k in n.keywords)
-            carries = request_derived(f, vals, at)
+            carries = request_derived(f, vals, at) or w['kind'] == 'memo'
             resets = [g.node_of_stmt(x['node'])[0] for x in ws if x['func'] is f and x['target'] == w['target']
                       and x['kind'] in ('call:clear', 'slice-assign', 'global-assign') and x is not w]
             scratch = bool(resets) and g.must_pass(g.entry, at, resets)
